@@ -419,6 +419,21 @@ def true_gate(T, tcv, tpn):
     return below(T.mean_obs, tcv) or below(T.iqr_obs, tpn)
 
 
+def gate_ambiguous(T, tcv, tpn):
+    """a ratio that differs from its (binary64) threshold by less than binary64 can resolve, without being equal to it
+    as exact rationals - e.g. rmse_adj/mean = 2/20 against the double 0.1 = 0.1000000000000000055...: the code's
+    quotient rounds onto the threshold and `<` is false, exact arithmetic says "below".  The property does not speak
+    about such roundings; the verdict is then not compared (exact ties, e.g. 1/4 against 0.25, stay decisive:
+    strict `<`, as coded and as 'misses the threshold' reads)."""
+    msa = T.sse / T.ddof
+    for den, thr in ((T.mean_obs, tcv), (T.iqr_obs, tpn)):
+        if den > T.mn and thr > 0:
+            q2, t2 = msa / (den * den), Fr(thr) ** 2
+            if q2 != t2 and abs(q2 - t2) <= Fr(4, 10**12) * t2:
+                return True
+    return False
+
+
 # ------------------------------------------------------------------ implementation adapters
 
 def frame_of(case, index=None):
@@ -624,7 +639,8 @@ def baseline_job(case):
         want = true_gate(T, tcv, tpn)
         gterm = ("{| gc_pl := %s; gc_den := %d%%positive; gc_rows := %s; gc_p := %s; gc_mn := %s; gc_tcv := %s; gc_tpn := %s; "
                  "gc_acceptable := %s |}" % (POLICY[0], case["den"], rows_term, zlit(case["p"]), flit(MN), flit(tcv), flit(tpn), coq_bool(acc)))
-        out["gates"].append({"tcv": tcv, "tpn": tpn, "acc": acc, "want": want, "unsafe": unsafe_ratios(T, fields), "term": gterm})
+        out["gates"].append({"tcv": tcv, "tpn": tpn, "acc": acc, "want": want, "unsafe": unsafe_ratios(T, fields), "term": gterm,
+                             "ambiguous": gate_ambiguous(T, tcv, tpn)})
     return out
 
 
@@ -663,6 +679,9 @@ def stream_baseline(run, cases):
         (long_ if len(case["rows"]) > 150 else small).append((res["term"], case, fields))
         for g in res["gates"]:
             run.count(("gate", vlib.sha(case), g["tcv"], g["tpn"]))
+            if g["ambiguous"]:
+                run.dist("gate boundary", "ratio within binary64 rounding of its threshold: verdict not compared")
+                continue
             run.dist("gate verdict", "acceptable" if g["acc"] else "disqualified")
             if g["acc"] != g["want"]:
                 run.violation(gate_sig(g["acc"], g["unsafe"], "HourlyModel._model_fit_is_acceptable"),
@@ -786,7 +805,8 @@ def hourly_stub_job(case):
         return out
     dq = any(w.qualified_name == "eemeter.model_fit_metrics" for w in hm.disqualification)
     fails, T = oracle_baseline(pairs, nparams, fields, k_mad)
-    out.update(fields=fields, stored_p=stored_p, dq=dq, fails=fails, want_dq=not true_gate(T, tcv, tpn), unsafe=unsafe_ratios(T, fields))
+    out.update(fields=fields, stored_p=stored_p, dq=dq, fails=fails, want_dq=not true_gate(T, tcv, tpn), unsafe=unsafe_ratios(T, fields),
+               ambiguous=gate_ambiguous(T, tcv, tpn))
     out["term"] = ("{| hc_pl := %s; hc_den := %d%%positive; hc_rows := %s; hc_frows := []; hc_p := %s; hc_mn := %s; hc_k := %s; hc_exp := %s |}" % (
         POLICY[0], den, coq_hrows(hrows), zlit(stored_p), flit(MN), flit(k_mad), coq_list([obsv(fields[f]) for f in FIELDS])))
     out["gterm"] = ("{| gc_pl := %s; gc_den := %d%%positive; gc_rows := %s; gc_p := %s; gc_mn := %s; gc_tcv := %s; gc_tpn := %s; gc_acceptable := %s |}" % (
@@ -818,12 +838,14 @@ def stream_hourly_stub(run, cases):
         for sig, msg in r["fails"]:
             run.violation(dict(sig, call="HourlyModel.fit"), "C16 HourlyModel.fit baseline_metrics (measured rows): " + msg,
                           case=rc, observation=fields, generator="c16.hourly_stub")
-        if r["dq"] != r["want_dq"]:
+        if r["ambiguous"]:
+            run.dist("gate boundary", "ratio within binary64 rounding of its threshold: verdict not compared")
+        elif r["dq"] != r["want_dq"]:
             run.violation(gate_sig(not r["dq"], r["unsafe"], "HourlyModel.fit"),
                           "C16 HourlyModel.fit: %s with cvrmse_adj=%r (threshold %r), pnrmse_adj=%r (threshold %r)" % (
                               "disqualified" if r["dq"] else "not disqualified", fields["cvrmse_adj"], r["tcv"], fields["pnrmse_adj"], r["tpn"]),
                           case=rc, observation=r["dq"], expected=r["want_dq"], generator="c16.hourly_stub")
-        lst.append((r["term"], r["gterm"], case, fields, r["dq"]))
+        lst.append((r["term"], None if r["ambiguous"] else r["gterm"], case, fields, r["dq"]))
     if lst:
         bad = run.coq_cases("hourly_stub", IMPORTS, "", [t[0] for t in lst], "check_hourly", shard=40, timeout=600)
         if bad is None:
@@ -831,12 +853,13 @@ def stream_hourly_stub(run, cases):
         else:
             for i in bad[:6]:
                 report_mismatch(run, "hourly_stub", "hourly_bad", lst[i][0], lst[i][2], lst[i][3])
-        bad = run.coq_cases("hourly_stub_gate", IMPORTS, "", [t[1] for t in lst], "check_gate", shard=60, timeout=600)
+        glst = [t for t in lst if t[1] is not None]
+        bad = run.coq_cases("hourly_stub_gate", IMPORTS, "", [t[1] for t in glst], "check_gate", shard=60, timeout=600)
         if bad is None:
             run.proof_ok = False
         else:
             for i in bad[:6]:
-                run.corr_failures.append({"stream": "hourly_stub_gate", "case": lst[i][2], "impl": {"disqualified": lst[i][4]}})
+                run.corr_failures.append({"stream": "hourly_stub_gate", "case": glst[i][2], "impl": {"disqualified": glst[i][4]}})
 
 
 def gen_daily(rng, k):
@@ -1162,7 +1185,7 @@ def hourly_fit_job(args):
         POLICY[0], frows, zlit(int(m.baseline_metrics.num_model_params)), flit(MN), flit(k_mad), coq_list([obsv(fields[f]) for f in FIELDS])))
     return {"seed": seed, "variant": variant, "ndays": ndays, "span": args[2] if len(args) > 2 else "long", "fields": fields, "nrows": len(rows), "nparams": nparams,
             "stored_p": int(m.baseline_metrics.num_model_params), "n_interpolated": int(flag.sum()), "dq": dq, "tcv": tcv, "tpn": tpn,
-            "fails": fails, "want_dq": not true_gate(T, tcv, tpn), "unsafe": unsafe_ratios(T, fields), "term": term}
+            "fails": fails, "want_dq": not true_gate(T, tcv, tpn) if not gate_ambiguous(T, tcv, tpn) else dq, "unsafe": unsafe_ratios(T, fields), "term": term}
 
 
 def daily_fit_job(args):
